@@ -126,7 +126,7 @@ Ltac simp := cbn -[N.pow Z.pow i32 d_i32 z_to_u tx_occs tx_of txhash_occs txhash
                    ghdr_occs ghdr_of map ob2d on2d oz2d].
 
 Ltac fld2 :=
-  unfold last_bytes, last_var, all_bytes, all_msgs, merged;
+  unfold merged; unfold last_bytes, last_var, all_bytes, all_msgs;
   rewrite vals_to_occs; simp;
   repeat match goal with
          | |- context [ob2d ?d] => is_var d; destruct d
@@ -187,4 +187,86 @@ Proof.
   destruct p. unfold hdr_of, hdr_occs. cbv zeta. apply mk_pb_hdr_eq; fld2.
   - rewrite app_nil_r, all_msgs_map, map_map. apply map_id_Forall. apply Forall_forall. intros e _. apply txhash_of_occs.
   - destruct h_EvictedTxs as [h|]; cbn -[hashes_occs hashes_of]; [|reflexivity]. rewrite app_nil_r, hashes_of_occs. reflexivity.
+Qed.
+
+(* ---- Block, TransactionSlice ---- *)
+Definition pb_txs_ok (l : list pb_tx) : Prop := Forall (fun t => pb_tx_ok t /\ sized (tx_occs sc t)) l.
+
+Definition pb_block_ok (p : pb_block) : Prop :=
+  match p.(k_Header) with Some h => pb_hdr_ok h /\ sized (hdr_occs sc h) | None => True end /\ pb_txs_ok p.(k_Transactions).
+
+Lemma txs_group_conf m k fd l : find_fd (msg_fields sc m) k = Some fd -> fd.(fd_kind) = FRepMsg "Transaction" -> num_ok k ->
+  pb_txs_ok l -> conf sc m (map (pair k) (map (fun t => DMsg (tx_occs sc t)) l)).
+Proof.
+  intros F K NO H. eapply conf_repmsg_group; [exact F | right; exact K | exact NO |].
+  eapply Forall_impl; [|exact H]. cbn. intros t [A B]. split; [apply tx_conf; exact A | exact B].
+Qed.
+
+Lemma txs_map_of l : pb_txs_ok l -> map (fun t => tx_of sc (tx_occs sc t)) l = l.
+Proof. intros H. apply map_id_Forall. eapply Forall_impl; [|exact H]. cbn. intros t [A _]. apply tx_of_occs; exact A. Qed.
+
+Lemma block_conf p : pb_block_ok p -> conf sc "Block" (block_occs sc p).
+Proof.
+  destruct p as [hd txs]. intros [H1 H2]. cbn [k_Header k_Transactions] in *.
+  unfold block_occs, to_occs. cbn -[map hdr_occs tx_occs].
+  apply conf_app; [|apply conf_app; [|constructor]].
+  - destruct hd as [h|]; [|constructor]. cbn [map]. destruct H1 as [A B].
+    eapply conf_msg; [reflexivity | left; reflexivity | unfold num_ok; lia | exact B | apply hdr_conf; exact A | constructor].
+  - eapply txs_group_conf; [reflexivity | reflexivity | unfold num_ok; lia | exact H2].
+Qed.
+
+Lemma block_of_occs p : pb_block_ok p -> block_of sc (block_occs sc p) = p.
+Proof.
+  destruct p as [hd txs]. intros [H1 H2]. cbn [k_Header k_Transactions] in *.
+  unfold block_of, block_occs. apply mk_pb_block_eq; unfold merged, all_msgs; rewrite vals_to_occs; simp.
+  - destruct hd as [h|]; cbn -[hdr_occs hdr_of]; [|reflexivity]. rewrite app_nil_r, hdr_of_occs. reflexivity.
+  - rewrite app_nil_r, all_msgs_map, map_map. apply txs_map_of; exact H2.
+Qed.
+
+Lemma txs_conf l : pb_txs_ok l -> conf sc "TransactionSlice" (txs_occs sc l).
+Proof.
+  intros H. unfold txs_occs, to_occs. cbn -[map tx_occs]. apply conf_app; [|constructor].
+  eapply txs_group_conf; [reflexivity | reflexivity | unfold num_ok; lia | exact H].
+Qed.
+
+Lemma txs_of_occs l : pb_txs_ok l -> txs_of sc (txs_occs sc l) = l.
+Proof.
+  intros H. unfold txs_of, txs_occs, all_msgs. rewrite vals_to_occs. cbn -[map tx_occs tx_of].
+  rewrite app_nil_r, all_msgs_map, map_map. apply txs_map_of; exact H.
+Qed.
+
+(* ---- GroupHeader, Group ---- *)
+Definition pb_ghdr_ok (p : pb_ghdr) : Prop :=
+  bok p.(g_Hash) /\ bok p.(g_Parent) /\ bok p.(g_PreGroup) /\ bok p.(g_CreateBlockHash) /\ bok p.(g_BeginTime) /\
+  bok p.(g_MemberRoot) /\ nok p.(g_CreateHeight) /\ bok p.(g_Extends).
+
+Lemma ghdr_conf p : pb_ghdr_ok p -> conf sc "GroupHeader" (ghdr_occs sc p).
+Proof.
+  destruct p. intros H. unfold pb_ghdr_ok in H. cbn -[N.pow] in H. decompose [and] H. clear H.
+  unfold ghdr_occs, to_occs. cbn -[map ob2d on2d].
+  repeat (apply conf_app; [first [grp_b | grp_n]|]). constructor.
+Qed.
+
+Lemma ghdr_of_occs p : ghdr_of sc (ghdr_occs sc p) = p.
+Proof. destruct p. unfold ghdr_of, ghdr_occs. cbv zeta. apply mk_pb_ghdr_eq; fld2. Qed.
+
+Definition pb_group_ok (p : pb_group) : Prop :=
+  match p.(r_Header) with Some h => pb_ghdr_ok h /\ sized (ghdr_occs sc h) | None => True end /\
+  bok p.(r_Id) /\ bok p.(r_PubKey) /\ bok p.(r_Signature) /\ hashes_ok p.(r_Members) /\ nok p.(r_GroupHeight).
+
+Lemma group_conf p : pb_group_ok p -> conf sc "Group" (group_occs sc p).
+Proof.
+  destruct p as [hd i pk sg mm gh]. intros H. unfold pb_group_ok in H. cbn -[N.pow ghdr_occs] in H. decompose [and] H. clear H.
+  unfold group_occs, to_occs. cbn -[map ob2d on2d ghdr_occs].
+  repeat (apply conf_app; [first [grp_b | grp_n | idtac]|]); try constructor.
+  - destruct hd as [h|]; [|constructor]. cbn [map]. destruct H0 as [A B].
+    eapply conf_msg; [reflexivity | left; reflexivity | unfold num_ok; lia | exact B | apply ghdr_conf; exact A | constructor].
+  - eapply conf_repbytes_group; [reflexivity | reflexivity | unfold num_ok; lia | assumption].
+Qed.
+
+Lemma group_of_occs p : group_of sc (group_occs sc p) = p.
+Proof.
+  destruct p as [hd i pk sg mm gh]. unfold group_of, group_occs. cbv zeta. apply mk_pb_group_eq; fld2.
+  - destruct hd as [h|]; cbn -[ghdr_occs ghdr_of]; [|reflexivity]. rewrite app_nil_r, ghdr_of_occs. reflexivity.
+  - rewrite app_nil_r. apply all_bytes_map.
 Qed.
